@@ -760,6 +760,15 @@ def oracle_scenarios(ctx):
                     acts += [["clock", 6], ["out", 0]]
                 sc.append(dict(pat="abc", n=n, acts=acts))
                 sc.append(dict(pat="two", n=n, acts=acts + [["in", 0, 4], ["out", 0], ["clock", 6], ["out", 0]]))
+    # a backlog holding records of ONE kind only (a halt, a completion, progress), then healing with no further input:
+    # the backlog has to be retried on its own
+    for n in (2, 3):
+        for fault in ("down", "fail"):
+            for pat, pre, last in (("strict", [1], 3), ("strict", [1, 2], 1), ("abc", [1, 2], 3), ("abc", [1], 2), ("loop", [1, 2], 2)):
+                acts = [["in", 0, d] for d in pre] + [["out", 0]] * len(pre) + [["upd", x] for x in range(1, n)]
+                acts += [["link", 0, 1, fault], ["in", 0, last], ["out", 0]]
+                for quiet in ([], [["clock", 6], ["out", 0]], [["clock", 31]]):
+                    sc.append(dict(pat=pat, n=n, acts=acts + quiet))
     # bounded-exhaustive, 2 instances
     alpha = [["in", 0, 1], ["in", 0, 2], ["in", 1, 2], ["in", 1, 3], ["out", 0], ["out", 1], ["upd", 0], ["upd", 1],
              ["link", 0, 1, "down"], ["link", 0, 1, "fail"], ["link", 1, 0, "down"], ["link", 0, 1, "up"],
